@@ -146,6 +146,13 @@ func kindPolicy(kind string) *seccomp.Policy {
 		return &seccomp.Policy{DefaultAction: seccomp.ActionAllow, Syscalls: []seccomp.SyscallGroup{{Action: seccomp.ActionErrno}}}
 	case "perm-log":
 		return &seccomp.Policy{DefaultAction: seccomp.ActionLog, Syscalls: []seccomp.SyscallGroup{{Action: seccomp.ActionLog, Names: []string{"getppid"}}}}
+	case "actions":
+		// every action the library knows, as default and group actions
+		return &seccomp.Policy{DefaultAction: seccomp.ActionKillProcess, Syscalls: []seccomp.SyscallGroup{
+			{Action: seccomp.ActionLog, Names: []string{"getppid"}}, {Action: seccomp.ActionTrap, Names: []string{"getuid"}},
+			{Action: seccomp.ActionErrno, Names: []string{"getsid"}}, {Action: seccomp.ActionTrace, Names: []string{"getgid"}},
+			{Action: seccomp.ActionKillThread, Names: []string{"getpgid"}}, {Action: seccomp.ActionAllow, Names: []string{"read", "write"}},
+			{Action: seccomp.ActionKillProcess, NamesWithCondtions: []seccomp.NameWithConditions{{Name: "getpriority", Conditions: seccomp.ArgumentConditions{{Argument: 1, Operation: seccomp.GreaterThan, Value: 1 << 33}}}}}}}
 	case "huge":
 		// ~3.7k instructions, allows everything the probes and the runtime need (errno only for getsid with odd arguments)
 		g := seccomp.SyscallGroup{Action: seccomp.ActionErrno}
